@@ -480,7 +480,23 @@ fn item_j(i: &syn::Item) -> J {
         syn::Item::Macro(m) => obj("ItemMacro", ln, vec![("name", s(toks(&m.mac.path))), ("ident", m.ident.as_ref().map(|x| s(x)).unwrap_or(J::Null)), ("tokens", tt_j(m.mac.tokens.clone())), ("cfg_test", J::Bool(is_cfg_test(&m.attrs)))]),
         syn::Item::ExternCrate(e) => obj("ExternCrate", ln, vec![("name", s(&e.ident)), ("rename", e.rename.as_ref().map(|(_, r)| s(r)).unwrap_or(J::Null))]),
         syn::Item::Type(t) => obj("TypeAlias", ln, vec![("name", s(&t.ident)), ("ty", s(toks(&t.ty)))]),
-        syn::Item::Trait(t) => obj("Trait", ln, vec![("name", s(&t.ident))]),
+        syn::Item::Trait(t) => {
+            // provided (default) methods are code of the crate like any other function
+            let mut fns = Vec::new();
+            for it in t.items.iter() {
+                if let syn::TraitItem::Fn(f) = it {
+                    if let Some(block) = &f.default {
+                        let mut v = sig_j(&f.sig);
+                        v.push(("vis", s("")));
+                        v.push(("attrs", attrs_j(&f.attrs)));
+                        v.push(("cfg_test", J::Bool(is_cfg_test(&f.attrs))));
+                        v.push(("body", block_j(block)));
+                        fns.push(obj("Fn", line(f), v));
+                    }
+                }
+            }
+            obj("Trait", ln, vec![("name", s(&t.ident)), ("cfg_test", J::Bool(is_cfg_test(&t.attrs))), ("fns", J::Arr(fns))])
+        }
         other => obj("OtherItem", ln, vec![("text", s(toks(other).chars().take(120).collect::<String>()))]),
     }
 }
